@@ -433,31 +433,38 @@ func c14Tags(d *oaDoc, m *spec.Method, w *rt.WireReq, site, loc string, schemaEr
 		return tags
 	}
 	// ---- the server rejects: what does its message talk about?
-	if serverMsg != "" {
-		switch {
-		case strings.Contains(serverMsg, "[key] must") || strings.Contains(serverMsg, ".key must") || strings.Contains(serverMsg, "[key]."):
-			tags = append(tags, "schema:map-key-elem-validation-not-documented")
-		case strings.HasPrefix(serverMsg, "length of ") && strings.Contains(serverMsg, "but got value map["):
-			tags = append(tags, "schema:map-length-not-documented")
-		case strings.HasPrefix(serverMsg, "length of ") && (strings.Contains(serverMsg, "but got value []byte{") || strings.Contains(serverMsg, "but got value []uint8{")):
-			tags = append(tags, "schema:bytes-length-on-base64-text")
-		}
+	if strings.HasPrefix(serverMsg, "length of ") && strings.Contains(serverMsg, "(nil) (len=0)") {
+		// the collection is ABSENT and the server still applies its minimum length: C04's absent-collection-minlen,
+		// a defect of the validation code and not of the schema
+		return nil
 	}
-	// ---- and what does the documented body schema say about the mutated location?
+	// what does the documented body schema say about the mutated location?
+	var node map[string]any
+	stop := "unknown"
 	p := strings.SplitN(site, ":", 3)
-	if len(tags) == 0 && len(p) == 3 && loc == "body" && d != nil && w != nil {
+	if len(p) == 3 && loc == "body" && d != nil && w != nil {
 		path := p[2]
 		if m.HTTP != nil && strings.HasPrefix(m.HTTP.Body, "attr:") {
 			path = strings.TrimPrefix(path, "."+strings.TrimPrefix(m.HTTP.Body, "attr:"))
 		}
-		node, stop := d.walk(d.requestBodySchema(w), path)
-		switch {
-		case stop == "map-key" || stop == "free-form":
-			tags = append(tags, "schema:map-key-elem-validation-not-documented")
-		case node != nil && p[0] == "length":
-			if _, isMap := node["additionalProperties"]; isMap {
-				tags = append(tags, "schema:map-length-not-documented")
-			}
+		node, stop = d.walk(d.requestBodySchema(w), path)
+	}
+	switch {
+	case strings.Contains(serverMsg, ".key must") || stop == "map-key":
+		// OpenAPI 3.0 schemas cannot constrain the keys of a map
+		tags = append(tags, "schema:map-key-elem-validation-not-documented")
+	case stop == "free-form":
+		// the probe is inside a map documented as additionalProperties: true (non-string keys)
+		tags = append(tags, "schema:non-string-key-map-is-free-form")
+	case strings.HasPrefix(serverMsg, "length of ") && strings.Contains(serverMsg, "but got value map["):
+		tags = append(tags, "schema:map-length-not-documented")
+	case strings.HasPrefix(serverMsg, "length of ") && (strings.Contains(serverMsg, "but got value []byte{") || strings.Contains(serverMsg, "but got value []uint8{")):
+		tags = append(tags, "schema:bytes-length-on-base64-text")
+	case strings.Contains(serverMsg, "[key] must") || strings.Contains(serverMsg, "[key]."):
+		tags = append(tags, "schema:non-string-key-map-is-free-form")
+	case node != nil && p[0] == "length":
+		if _, isMap := node["additionalProperties"]; isMap {
+			tags = append(tags, "schema:map-length-not-documented")
 		}
 	}
 	return tags
